@@ -220,6 +220,46 @@ func c15(r *Report, s *Sem) {
 		}
 		return bs.fn.Parent() != nil && (bs.kind == "chan send" || bs.kind == "chan receive") && helperDrained(bs)
 	})
+	// ---- C: the context handed down is the operation's own
+	C := r.Rule("C", "the context travels with the operation: in every inventoried function that takes a context, each context argument it passes to a function of the package or to a Transport/listener method derives from its own context parameter (directly, captured, or through context.With* on it) — a detached context substituted on some path makes the callee's waits ignore the caller's deadline or cancellation", 20)
+	for _, fn := range fns {
+		top := topLevel(fn)
+		hasCtx := false
+		for _, pr := range top.Params {
+			if nm := namedOf(pr.Type()); nm != nil && nm.Obj().Name() == "Context" && nm.Obj().Pkg() != nil && nm.Obj().Pkg().Path() == "context" {
+				hasCtx = true
+			}
+		}
+		if !hasCtx {
+			continue
+		}
+		eachCall(fn, func(c ssa.CallInstruction) {
+			if _, isGo := c.(*ssa.Go); isGo {
+				return // a goroutine's lifetime context is its own matter (K judges the waits inside)
+			}
+			cc := c.Common()
+			target := ""
+			if cc.IsInvoke() {
+				if nm := namedOf(cc.Value.Type()); nm != nil && nm.Obj().Pkg() == p.LimeT {
+					target = nm.Obj().Name() + "." + cc.Method.Name()
+				}
+			} else if g := staticCallee(c); g != nil && g.Pkg == p.Lime {
+				target = fnName(g)
+			}
+			if target == "" {
+				return
+			}
+			for i, arg := range cc.Args {
+				nm := namedOf(arg.Type())
+				if nm == nil || nm.Obj().Name() != "Context" || nm.Obj().Pkg() == nil || nm.Obj().Pkg().Path() != "context" {
+					continue
+				}
+				ok := ctxFromParam(arg, 0)
+				r.Check(C, fmt.Sprintf("func %s / context argument #%d of %s", fnName(fn), i, target), p.instrPos(c), ok, "the context passed is "+describe(arg)+", which does not (only) derive from the function's context parameter")
+			}
+		})
+	}
+
 	// ---- E: what happens once the context has ended
 	E := r.Rule("E", "prompt at expiry: on the `<-ctx.Done()` arm of a select in an inventoried function nothing can run the stop-and-wait routine (its wait for the receiver is bounded only by the transport's poll interval — acceptable after a terminal envelope, not when a deadline has passed)", 8)
 	if a.stopFn != nil {
@@ -730,7 +770,34 @@ func polledIO(c *ssa.Call) (bool, string) {
 	if retryUnchecked {
 		return false, "a retry reaches the I/O again without re-checking the context: a peer that keeps the transfer trickling makes a cancelled operation run on"
 	}
-	return true, "deadline = min(now + poll interval, ctx deadline), context re-checked on every cycle"
+	// … and re-arms a deadline computed from a fresh time.Now(): one computed before the loop has expired after the first
+	// poll timeout, every later attempt fails at once and the wrapper spins without ever reading or writing again
+	nows := map[ssa.Instruction]bool{}
+	for _, l := range backSlice(set.(*ssa.Call).Call.Args[0], 14) {
+		if call, ok := l.(*ssa.Call); ok {
+			if g := call.Call.StaticCallee(); g != nil && g.Pkg != nil && g.Pkg.Pkg.Path() == "time" && g.Name() == "Now" {
+				nows[call] = true
+			}
+		}
+	}
+	if len(nows) == 0 {
+		return false, "the deadline is not computed from time.Now()"
+	}
+	stale := false
+	walkFrom(fn, c, walkOpts{barrier: func(in ssa.Instruction) bool {
+		if nows[in] {
+			return true
+		}
+		if cc, ok := in.(*ssa.Call); ok && cc == c {
+			stale = true
+			return true
+		}
+		return false
+	}})
+	if stale {
+		return false, "a retry reaches the I/O again with a deadline computed before the loop: after the first poll timeout it has expired, and the wrapper spins without transferring anything"
+	}
+	return true, "deadline = min(now + poll interval, ctx deadline) recomputed on every cycle, context re-checked on every cycle"
 }
 
 // spawnerForcesDeadline: the parent of helper goroutine fn selects on ctx.Done() and, on that arm, sets an immediate deadline.
